@@ -87,7 +87,15 @@ ASSUME \A q \in 1..Len(WinBasesY) : WinPtY(q)[1] = "ok" => C!OnCurve(WinPtY(q)[2
 WinCaseY(j, q) == IF WinPtY(q)[1] # "ok" THEN <<>>
                   ELSE << Craft(j, "valid-window-y2", Dof(j), WinPtY(q)[2], EncodePoint(WinPtY(q)[2], FALSE), "c1c3c2"),
                           CraftC(j, "comp-valid-window-y2", Dof(j), WinPtY(q)[2], EncodePoint(WinPtY(q)[2], TRUE), "c1c3c2") >>
-WinCases(j) == IF j > 1 THEN <<>> ELSE WinCase(j, 1) \o WinCase(j, 2) \o WinCase(j, 3) \o WinCase(j, 4) \o WinCaseY(j, 1) \o WinCaseY(j, 2) \o WinCaseY(j, 3)
+\*   "sparse-mont-x"  the stored (Montgomery) form of x has its two low 64-bit words zero: x = (k 2^128) R^-1 -- the low half of the product x * x vanishes
+Two128 == <<1>> \o [q \in 1..16 |-> 0]
+RECURSIVE FindPtSX(_, _, _)
+FindPtSX(k, i, lim) == IF i > lim THEN <<"none">> ELSE IF C!Lift(BMulMod(BMul(BAdd(k, <<i>>), Two128), RMInv, PP), 0)[1] = "ok" THEN C!Lift(BMulMod(BMul(BAdd(k, <<i>>), Two128), RMInv, PP), 0) ELSE FindPtSX(k, i + 1, lim)
+SXBases == << <<1>>, <<1>> \o [q \in 1..12 |-> 0] >>
+WinCaseSX(j, q) == IF FindPtSX(SXBases[q], 0, 40)[1] # "ok" THEN <<>>
+                   ELSE << Craft(j, "valid-sparse-mont-x", Dof(j), FindPtSX(SXBases[q], 0, 40)[2], EncodePoint(FindPtSX(SXBases[q], 0, 40)[2], FALSE), "c1c3c2"),
+                           CraftC(j, "comp-valid-sparse-mont-x", Dof(j), FindPtSX(SXBases[q], 0, 40)[2], EncodePoint(FindPtSX(SXBases[q], 0, 40)[2], TRUE), "c1c3c2") >>
+WinCases(j) == IF j > 1 THEN <<>> ELSE WinCaseSX(j, 1) \o WinCaseSX(j, 2) \o WinCase(j, 1) \o WinCase(j, 2) \o WinCase(j, 3) \o WinCase(j, 4) \o WinCaseY(j, 1) \o WinCaseY(j, 2) \o WinCaseY(j, 3)
 \* a nonce whose key stream for a ONE-byte message is the zero byte (GB/T 32918.4 step A5: t all zero -> back to A1 with a NEW nonce): 1 in 256; searched among
 \* k = 2, 3, ... for the key of index 1.  The driver scripts [that nonce, another one]: the ciphertext must be the one of the second nonce alone.
 RECURSIVE FindZeroT(_, _, _)
